@@ -116,6 +116,8 @@ SmimeFlags(e) ==
 
 OutFlags(e) ==
        F("C12_NoPanic", ~e.panic)
+  \* a render operation that panics produces nothing any of the render properties could hold for
+  \cup (IF e.panic /\ ~e.faulted THEN {"C01_RenderPanicked", "C02_RenderPanicked", "C10_RenderPanicked", "C18_RenderPanicked"} ELSE {})
   \cup F("C12_ErrorOnFault", e.faulted => e.err)
   \cup F("C12_CountOnFault", (e.faulted /\ ~e.panic) => e.n = e.accepted)
   \cup F("C12_CountOnSuccess", e.ok => e.n = e.len)
